@@ -3,3 +3,5 @@ import TuModel.Model.Wire
 import TuModel.Model.Text
 import TuModel.Model.Whitespace
 import TuModel.Drive.TextD
+import TuModel.Model.Edit
+import TuModel.Drive.EditD
